@@ -42,7 +42,8 @@ ColIndex(labels, name) == LET K == {k \in 1..Len(labels) : labels[k] = name} IN 
 
 \* <<first violated clause or "none", particle index>>
 Verdict(t) ==
-    LET r == IF t.update THEN SC!UpdateAll(t.rows) ELSE t.rows
+    LET live == SC!ApplyHist(t.rows, t.hist)
+        r == IF t.update THEN SC!UpdateAll(live) ELSE live
         S == SC!ToSg(r, t.reset)
         N == Len(r)
         P == Parse(t.lines)
